@@ -133,6 +133,20 @@ def normalise(stream: lexer.Stream):
     return {"toks": toks, "gfx": gfx}, None
 
 
+def shape_params(case):
+    """Parameters selecting the choreography of RenderShape.tla this render must instantiate."""
+    style = case["style"]
+    method = case.get("method") or "lines"
+    if method == "anim":
+        method = "whole"  # ANIM and its fallback for stills use the WHOLE choreography
+    quirk = "other"
+    if style == "iterm2":
+        quirk = {"konsole": "konsole", "wezterm": "wezterm"}.get(case["ident"], "other")
+    args = case.get("args", {})
+    return dict(style=style, method=method if style != "block" else "lines", quirk=quirk,
+                mix=bool(args.get("mix", False)), blend=bool(args.get("blend", True)))
+
+
 def positions(rw, rh, multi_line):
     """(cols, rows, r0, c0) for every start position where the rectangle fits."""
     cols, rows = rw + 2, rh + 2
@@ -200,12 +214,15 @@ def main(rep: Report, replay: dict | None) -> None:
             uniq[key] = {"norm": norm, "rw": rw, "rh": rh, "case": case, "n": 0}
         uniq[key]["n"] += 1
 
+    for u in uniq.values():
+        u["shape"] = shape_params(u["case"])
     traces, owners = [], []
     for u in uniq.values():
         multi = u["rh"] > 1
         for cols, rows, r0, c0 in positions(u["rw"], u["rh"], multi):
             traces.append(
-                dict(cols=cols, rows=rows, r0=r0, c0=c0, rw=u["rw"], rh=u["rh"], **u["norm"])
+                dict(cols=cols, rows=rows, r0=r0, c0=c0, rw=u["rw"], rh=u["rh"], shape=u["shape"],
+                     **u["norm"])
             )
             owners.append((u, (cols, rows, r0, c0)))
     verdicts, st, tr = tlc.validate_traces(
